@@ -74,6 +74,11 @@ def malformed_cases(rng, count):
     specials = [b"a{3,0}", b"a{5,2}", b"a{129}", b"a{128}", b"a{0,128}", b"a{1,129}", b"(a){4294967295}", b"a{4294967297}", b"a{,}", b"a{", b"a{1", b"a{1,",
                 b"[", b"[a", b"[^", b"[[:alpha:", b"(", b"((", b")", b"a)", b"(a", b"\\", b"a\\", b"*", b"+a", b"a**", b"a*+", b"a|", b"|a", b"||", b"()", b"()*", b"(|)",
                 b"\xc3", b"a\xc3", b"\xc0\x80", b"\xc0\x80.", b"x\xc0\x80", b"\xe2\x82", b"\xf0", b"\xf0\x9f", b"[\xc3]", b"[a-\xc3]", b"\xff", b"a\xe2", b"(" * 40 + b"a" + b")" * 40, b"(a)" * 40]
+    # nested bounded repetitions: the program size is the product of the counts (beyond int with five levels of {128})
+    def nest(k, rep): return b"(" * k + b"a" + (rep + b")") * k
+    specials += [nest(3, b"{128}"), nest(4, b"{128}"), nest(5, b"{128}"), nest(6, b"{128}"), nest(10, b"{128}"), nest(30, b"{128}"), nest(5, b"{64,128}"),
+                 nest(4, b"{100,}"), nest(2, b"{128}") + b"{60}", nest(2, b"{128}") + b"{3}", b"(a{128}|b{128}){128}", nest(3, b"{0,128}"), nest(2, b"{2}"), b"(a{1,2}){1,2}",
+                 b"((a{128}){128}){8}", b"((a{128}){128}){7}", b"((a{128}){64}){16}", b"((ab){128}){100}"]
     lines = [b"a\n", b"aaa\n", b"\xc3\xa9\n", b"ab\n", b"\n", b"a", b"", b"aaaaaaaaaaaaaaaaaaaaaaaa\n"]
     for s in specials:
         for l in lines:
